@@ -15,6 +15,7 @@ def run(ctx):
         shared.rule_eq_derived(repo, list(repo.fp_types()) + ["crate::fields::fq2::Fq2", "crate::u256::U256", "crate::Fr", "crate::Fq", "crate::Fq2"]),
         shared.rule_rng(repo),
         field.rule_inv_none("C07", repo),
+        field.rule_limb_predicates("C07", repo),
     ]
     # the same rules on the release-profile MIR (cfg-dependent code would differ)
     repo_rel = Repo(ctx.rel)
